@@ -230,6 +230,14 @@ def generate(rng, n_instr, n_leaves, allow_kinks=False, big=False, leaves=None, 
         instrs = []
         used = set()
         reserved = set()
+        image_tpl = None
+        if n_leaves is not None and not big and rng.random() < 0.15:
+            # an image leaf that goes through a 2-D window op with padding on one axis only / different on both (what 'same' gives for a (3,1) kernel)
+            shp_ = [[1, 2, 4, 5], [2, 1, 3, 4], [1, 1, 5, 3]][int(rng.integers(3))]
+            leaves.append({"shape": shp_, "req": True})
+            v_ = rng.standard_normal(tuple(shp_))
+            leaf_vals.append(v_); vals.append(v_)
+            image_tpl = (len(leaves) - 1, {"k": 2, "s": int(rng.integers(1, 3)), "p": [[1, 0], [0, 1], [2, 0], [0, 2], [1, 2], [2, 1]][int(rng.integers(6))]})
         if n_leaves is not None and not big and rng.random() < 0.25:
             # a layer whose parameters are leaves of the program: x, W, b (the bias starts at exactly zero half of the time, as after zeros_)
             conv = rng.random() < 0.4
@@ -250,6 +258,11 @@ def generate(rng, n_instr, n_leaves, allow_kinks=False, big=False, leaves=None, 
             used.update([base, base + 1, base + 2])
             if not np.any(vals[base + 2]):
                 reserved.add(base + 2)        # exact zeros feed only the layer (|x|, log(x^2), max ... have kinks / poles there)
+    if init is None and not big and n_leaves is not None and image_tpl is not None:
+        base, a_ = image_tpl
+        instrs.append({"op": "unfold2d", "in": [base], "args": a_, "nout": 1})
+        vals.append(R.unfold(vals[base], a_["k"], 1, a_["s"], tuple(a_["p"])))
+        used.add(base)
     names = [k for k in POPS if allow_kinks or k not in KINKED]
     attempts = 0
     while len(instrs) < n_instr and attempts < n_instr * 30:
